@@ -105,6 +105,9 @@ func (s *c39Server) runWS(msgs []c39Msg) c39Result {
 			break // the broker may already have closed (text message case)
 		}
 	}
+	// end of input: a close frame makes the broker's handler finish even if it is still waiting
+	// for bytes that a faulty transport lost (the session's own DISCONNECT normally ends it first)
+	_ = c.WriteControl(websocket.CloseMessage, websocket.FormatCloseMessage(websocket.CloseNormalClosure, ""), time.Now().Add(30*time.Second))
 	var reply []byte
 	var res c39Result
 	c.SetReadDeadline(time.Now().Add(60 * time.Second))
@@ -174,6 +177,25 @@ func (s *c39Server) finish(res c39Result, reply []byte) c39Result {
 	return res
 }
 
+func c39SessionBig() (stream []byte, bounds []int) {
+	big := make([]byte, 3000)
+	for i := range big {
+		big[i] = byte('a' + i%26)
+	}
+	pks := []ref.Packet{
+		world.ConnectPacket("c", 4, true),
+		{Type: ref.SUBSCRIBE, PacketID: 1, Filters: []ref.Filter{{Filter: "y", Opts: 1}, {Filter: "y/#", Opts: 2}, {Filter: "z/+", Opts: 0}}},
+		{Type: ref.PUBLISH, Topic: "x", Payload: big, Qos: 1, PacketID: 2},
+		{Type: ref.PINGREQ},
+		{Type: ref.DISCONNECT},
+	}
+	for _, p := range pks {
+		stream = append(stream, ref.Encode(p, 4, ref.EncOpts{})...)
+		bounds = append(bounds, len(stream))
+	}
+	return
+}
+
 func c39Cuts(n, k int) [][]int {
 	var out [][]int
 	var rec func(start int, cur []int)
@@ -205,6 +227,7 @@ func init() {
 			desc string
 			text int // index of the text message (-1: none)
 			pre  int // bytes before the text message
+			sess int // 0: small session, 1: session with a 3000-byte PUBLISH
 		}
 		var jobs []job
 		mk := func(cut []int) []c39Msg {
@@ -217,20 +240,20 @@ func init() {
 			return msgs
 		}
 		for _, cut := range cuts {
-			jobs = append(jobs, job{mk(cut), fmt.Sprintf("cuts=%v", cut), -1, 0})
+			jobs = append(jobs, job{mk(cut), fmt.Sprintf("cuts=%v", cut), -1, 0, 0})
 		}
 		// one empty binary message / one text message at every position of every <=1-cut segmentation
 		for _, cut := range c39Cuts(limit, 1) {
 			base := mk(cut)
 			for pos := 0; pos <= len(base); pos++ {
 				withEmpty := append(append(append([]c39Msg{}, base[:pos]...), c39Msg{Data: []byte{}}), base[pos:]...)
-				jobs = append(jobs, job{withEmpty, fmt.Sprintf("cuts=%v empty@%d", cut, pos), -1, 0})
+				jobs = append(jobs, job{withEmpty, fmt.Sprintf("cuts=%v empty@%d", cut, pos), -1, 0, 0})
 				pre := 0
 				for _, m := range base[:pos] {
 					pre += len(m.Data)
 				}
 				withText := append(append(append([]c39Msg{}, base[:pos]...), c39Msg{Text: true, Data: []byte("hello")}), base[pos:]...)
-				jobs = append(jobs, job{withText, fmt.Sprintf("cuts=%v text@%d", cut, pos), pos, pre})
+				jobs = append(jobs, job{withText, fmt.Sprintf("cuts=%v text@%d", cut, pos), pos, pre, 0})
 			}
 		}
 		nw := c.Workers
@@ -243,6 +266,39 @@ func init() {
 				s.ts.Close()
 			}
 		}()
+		// second session: a PUBLISH larger than the broker's read buffer and than a one-byte
+		// WebSocket length field; cut at every position near the packet boundaries and on a grid
+		streamB, boundsB := c39SessionBig()
+		var pos []int
+		for i := 1; i < len(streamB); i++ {
+			near := i <= 24 || i >= len(streamB)-8
+			for _, b := range boundsB {
+				if i >= b-2 && i <= b+2 {
+					near = true
+				}
+			}
+			if near || i%257 == 0 || i == 125 || i == 126 || i == 127 || i == 2047 || i == 2048 || i == 2049 {
+				pos = append(pos, i)
+			}
+		}
+		mkB := func(cut []int) []c39Msg {
+			var msgs []c39Msg
+			prev := 0
+			for _, x := range append(append([]int{}, cut...), len(streamB)) {
+				msgs = append(msgs, c39Msg{Data: streamB[prev:x]})
+				prev = x
+			}
+			return msgs
+		}
+		jobs = append(jobs, job{mkB(nil), "big cuts=[]", -1, 0, 1})
+		for a := 0; a < len(pos); a++ {
+			jobs = append(jobs, job{mkB([]int{pos[a]}), fmt.Sprintf("big cuts=[%d]", pos[a]), -1, 0, 1})
+			for b := a + 1; b < len(pos); b++ {
+				jobs = append(jobs, job{mkB([]int{pos[a], pos[b]}), fmt.Sprintf("big cuts=[%d %d]", pos[a], pos[b]), -1, 0, 1})
+			}
+		}
+		wantB := servers[0].runTCP(streamB)
+		c.Rep.Sample(map[string]any{"big_session_len": len(streamB), "big_session_cut_positions": len(pos), "big_tcp_equivalent_processed": wantB.processed})
 		want := servers[0].runTCP(stream)
 		c.Rep.Sample(map[string]any{"tcp_equivalent_processed": want.processed, "tcp_equivalent_replies": want.replies, "stream_len": len(stream)})
 		if len(want.processed) < 5 {
@@ -262,6 +318,10 @@ func init() {
 						return
 					}
 					j := jobs[i]
+					want, bounds := want, bounds
+					if j.sess == 1 {
+						want, bounds = wantB, boundsB
+					}
 					got := s.runWS(j.msgs)
 					atomic.AddInt64(&evals, 1)
 					rp := map[string]any{"desc": j.desc}
